@@ -159,7 +159,7 @@ let run path =
       | ["term"; c] -> OTerminate (conn c)
       | ["close"] -> OClose
       | _ -> failwith ("bad case " ^ S.concat " " args) in
-    (match op with OSetupEnd true | OClose -> kt_seen := true | _ -> ());
+    
     let (r, st') = step prev op in
     let mres = s_of_result r in
     let label = !hist ^ "/" ^ k in
@@ -202,7 +202,7 @@ let run path =
                   | None -> "")
                | _ -> "" in
              Printf.printf "propfail %s %s op=%s impl=%s%s\n" label name (S.concat " " args) res lost end)
-         (Drv_backend_clauses.eval ~kill_timeout:!kt_seen prev op ires nx)
+         (Drv_backend_clauses.eval prev op ires nx)
      | _ -> ());
     (* continue from the implementation's state (the model's where no snapshot was possible) *)
     cur := (match next with Some nx -> nx | None -> st');
